@@ -510,3 +510,85 @@ func arrayKindBlocks(fn *ssa.Function, isDst func(ssa.Value) bool) map[*ssa.Basi
 	}
 	return out
 }
+
+// ---------------------------------------------------------------------------
+// C16.destreads: the functions that rebuild a Go value from a row
+// (reconstructFuncOf*) never let what the destination already holds influence
+// the result: on the destination reflect.Value they call setters and type
+// queries only. Reading it (IsNil, Len, Index, MapIndex, Interface, …) is how
+// storage of an earlier Read gets reused — a map the caller kept receives the
+// entries of the next row (finding F31). Elem() is accepted right after the
+// destination was Set to a fresh value in the same block.
+
+var destReadMethods = map[string]bool{"IsNil": true, "IsZero": true, "Len": true, "Cap": true, "Index": true, "MapIndex": true, "MapKeys": true, "MapRange": true,
+	"Interface": true, "Bytes": true, "Pointer": true, "UnsafePointer": true, "String": true, "Int": true, "Uint": true, "Float": true, "Bool": true, "Slice": true, "Slice3": true}
+
+func runDestReadsRule(c *Ctx, rule string, min int) {
+	p := c.P
+	n := 0
+	for _, fn := range p.ModuleSSAFuncs() {
+		if fn.Origin() != nil || fn.Blocks == nil || fn.Parent() == nil {
+			continue
+		}
+		root := fn
+		for root.Parent() != nil {
+			root = root.Parent()
+		}
+		if !strings.HasPrefix(root.Name(), "reconstructFuncOf") || fn.Pkg == nil || fn.Pkg.Pkg != p.Root.Types {
+			continue
+		}
+		for _, par := range fn.Params {
+			if !isReflectValue(par.Type()) {
+				continue
+			}
+			n++
+			var bad []string
+			for _, a := range destAliases(par) {
+				if a.Referrers() == nil {
+					continue
+				}
+				for _, r := range *a.Referrers() {
+					call, ok := r.(ssa.CallInstruction)
+					if !ok {
+						continue
+					}
+					cc := call.Common()
+					callee := cc.StaticCallee()
+					if callee == nil || callee.Signature.Recv() == nil || len(cc.Args) == 0 || cc.Args[0] != a || !isReflectValue(callee.Signature.Recv().Type()) {
+						continue
+					}
+					name := fnName(callee)
+					switch {
+					case destReadMethods[name]:
+						bad = append(bad, name+"() at "+p.Pos(call.Pos()))
+					case name == "Elem":
+						// fresh only if a Set on the destination precedes in the same block
+						fresh := false
+						for _, ins := range call.Block().Instrs {
+							if ins == call.(ssa.Instruction) {
+								break
+							}
+							if sc, ok := ins.(ssa.CallInstruction); ok {
+								if sf := sc.Common().StaticCallee(); sf != nil && fnName(sf) == "Set" && len(sc.Common().Args) > 0 {
+									for _, al := range destAliases(par) {
+										if sc.Common().Args[0] == al {
+											fresh = true
+										}
+									}
+								}
+							}
+						}
+						if !fresh {
+							bad = append(bad, "Elem() without a preceding Set at "+p.Pos(call.Pos()))
+						}
+					}
+				}
+			}
+			sort.Strings(bad)
+			c.Check(rule, FuncKey(fn)+" does not read what the destination already holds", fn.Pos(), len(bad) == 0,
+				FuncKey(fn)+" calls "+strings.Join(bad, ", ")+" on the destination value: what an earlier Read left there (a map, slice or pointer the caller may have kept) decides how this row is rebuilt, typically by reusing that storage, so values already handed to the caller change and stale entries leak into the new row")
+		}
+	}
+	c.Stats[rule+".reconstruct_closures"] = n
+	c.Min(rule, min)
+}
